@@ -7,6 +7,12 @@ import EupsModel.Lemmas.TableLegacy
 import EupsModel.Lemmas.TableLegacyOld
 import EupsModel.Lemmas.TableArgs
 import EupsModel.Lemmas.TableWritten
+import EupsModel.Lemmas.TableDeclOpts
+import EupsModel.Lemmas.TableGrammar
+import EupsModel.Lemmas.TableLegacyDenote
+import EupsModel.Lemmas.TableLegacyOldDenote
+import EupsModel.Lemmas.SetupType
+import EupsModel.Lemmas.TableDefault
 /-! C11 — table files mean what they say.  Property theorems only: the specification side is in
 `Spec/C11.lean`, the models in `Model/{Cond,CondPinned,TableParse}.lean`, the lemmas in `Lemmas/Cond*.lean`. -/
 namespace EupsModel.C11
@@ -359,6 +365,59 @@ theorem C11_command_kinds (pdir : Option Str) (args : List Str) :
     rcases h with h | h <;> simp [normalise, h]
   · intro a b rest h; subst h; rfl
 
+/-- **The remaining commands.**  `addAlias`, `declareOptions`, `print`, `prodDir`, `setupEnv` keep the arguments
+written (no arity rule); `sourceRequired` is skipped by design; `envUnset` (= `unsetenv` = `pathRemove`) of the
+product's own directory variable — written as `PRODUCT_DIR` or by its name — is kept with the variable's name as
+its argument, of any other variable it is skipped; the reader refuses (`BadTableContent`) `envUnset` with other
+than one argument, `envSet` with fewer than two, `envAppend`/`envPrepend` with fewer than two or more than three. -/
+theorem C11_command_kinds_rest (pdir : Option Str) (args : List Str) :
+    normalise pdir .addAlias args = .act ⟨Cmd.addAlias.name, dropF args, .none⟩ ∧
+    normalise pdir .declareOptions args = .act ⟨Cmd.declareOptions.name, dropF args, .none⟩ ∧
+    normalise pdir .doPrint args = .act ⟨Cmd.doPrint.name, dropF args, .none⟩ ∧
+    normalise pdir .prodDir args = .act ⟨Cmd.prodDir.name, dropF args, .none⟩ ∧
+    normalise pdir .setupEnv args = .act ⟨Cmd.setupEnv.name, dropF args, .none⟩ ∧
+    normalise pdir .sourceRequired args = .skip ∧
+    (∀ pv a, pdir = some pv → (a = sProductDir ∨ a = pv) →
+      normalise pdir .envUnset [a] = .act ⟨Cmd.envUnset.name, dropF [pv], .none⟩) ∧
+    (∀ pv a, pdir = some pv → a ≠ sProductDir → a ≠ pv → normalise pdir .envUnset [a] = .skip) ∧
+    (∀ a, pdir = none → a ≠ sProductDir → normalise pdir .envUnset [a] = .skip) ∧
+    (args.length ≠ 1 → normalise pdir .envUnset args = .bad) ∧
+    (args.length < 2 → normalise pdir .envSet args = .bad) ∧
+    ((args.length < 2 ∨ 3 < args.length) →
+      normalise pdir .envPrepend args = .bad ∧ normalise pdir .envAppend args = .bad) := by
+  refine ⟨rfl, rfl, rfl, rfl, rfl, rfl, ?_, ?_, ?_, ?_, ?_, ?_⟩
+  · intro pv a hp h; subst hp
+    rcases h with h | h <;> subst h <;> simp [normalise]
+  · intro pv a hp h1 h2; subst hp; simp [normalise, h1, h2]
+  · intro a hp h1; subst hp; simp [normalise, h1]
+  · intro h
+    match args, h with
+    | [], _ => rfl
+    | [_], h => simp at h
+    | _ :: _ :: _, _ => rfl
+  · intro h
+    match args, h with
+    | [], _ => rfl
+    | [_], _ => rfl
+    | _ :: _ :: _, h => simp at h; omega
+  · intro h
+    have : (decide (args.length < 2) || decide (args.length > 3)) = true := by
+      rcases h with h | h <;> simp [h]
+    simp [normalise, this]
+
+/-- **The documented command words.**  The reader's dictionary maps the lower-cased command word to the command:
+`pathAppend`/`pathPrepend`/`pathSet`/`setenv` are `envAppend`/`envPrepend`/`envSet`/`envSet`,
+`unsetenv`/`pathRemove` are `envUnset`; every other word stands for itself; anything else is no command. -/
+theorem C11_command_words :
+    (∀ c ∈ allCmds, cmdTable.lookup (Str.lower c.name) = some c) ∧
+    cmdTable.lookup (Str.ofString "pathappend") = some .envAppend ∧
+    cmdTable.lookup (Str.ofString "pathprepend") = some .envPrepend ∧
+    cmdTable.lookup (Str.ofString "pathset") = some .envSet ∧
+    cmdTable.lookup (Str.ofString "setenv") = some .envSet ∧
+    cmdTable.lookup (Str.ofString "unsetenv") = some .envUnset ∧
+    cmdTable.lookup (Str.ofString "pathremove") = some .envUnset ∧
+    cmdTable.length = 20 := by decide +kernel
+
 /-- **C11_written_command.**  A command line as written — indentation, the command word in any letter case, blanks
 before `(`, a written argument list (`C11_args`), `)`, an optional `;`, blanks, a trailing comment — whose
 arguments hold no `#` and none of the seven old variable names `_rewrite` replaces, is one of the lines
@@ -425,5 +484,275 @@ theorem C11_args_empty_quoted_witness :
       = [Str.ofString "\"\", \"a", Str.ofString "b\""] ∧
     parseArgs repaired (Str.ofString "\"\", \"a b\"") = [[], Str.ofString "a b"] := by
   decide +kernel
+
+/-! ## the headline on a stated grammar of table texts -/
+
+/-- **C11_table_text (the headline, on a stated grammar of texts, no hypothesis about the reader).**  For every table
+of the grammar of `Spec/C11Grammar.lean` — items that are command lines as written (indentation, command word in any
+letter case, blanks, a written argument list with quoted and unquoted arguments and any separators, optional `;`,
+trailing comment), blank or comment lines, and `if` / `else if` / `else` chains of any length written with any layout
+whose branches hold such lines, conditions in any written form — for every product, flavor (not one of the
+evaluator's four special tokens) and list of setup types:
+`Table(text, product).actions(flavor, types)` is exactly what the table denotes (`gDenote`): the actions of the
+commands outside chains, of each chain those of the first branch whose condition is true, else of the else branch,
+in the order written, each command with the arguments written (`WCmd.denote`).
+The well-formedness conditions are all syntactic (`GItem.ok`: blanks are blanks, words are words, no `#` or old
+variable name inside a command, the number of arguments is one the reader accepts). -/
+theorem C11_table_text (env : Env) (hfl : flavorOK env.flavor = true) (pdir : Option Str) (t : List GItem)
+    (hok : t.all (GItem.ok pdir) = true) (nl : Bool) :
+    tableActions repaired pdir env (gText t nl) = .ok (gDenote pdir env t) := by
+  rw [gText_eq pdir, C11_blocks_text env hfl pdir _ (gtable_ok hok) nl, gtable_denote env hok]
+
+def cmdSetA : WCmd :=
+  { wrap := ⟨[9], []⟩, name := Str.ofString "envSet", cmd := .envSet, gap := [],
+    args := .some [] ⟨Str.ofString "A", false⟩ [(Str.ofString ", ", ⟨Str.ofString "1", false⟩)] [], tl := [] }
+def cmdSetB : WCmd :=
+  { wrap := ⟨Str.ofString "      ", Str.ofString "# comment"⟩, name := Str.ofString "SETENV", cmd := .envSet, gap := [32],
+    args := .some [] ⟨Str.ofString "B", false⟩ [(Str.ofString ", ", ⟨Str.ofString "x y", true⟩)] [], tl := Str.ofString ";  " }
+def cmdUnset : WCmd :=
+  { wrap := ⟨[], []⟩, name := Str.ofString "pathRemove", cmd := .envUnset, gap := [],
+    args := .some [] ⟨Str.ofString "PATH", false⟩ [] [], tl := [] }
+
+def sampleGTable : List GItem :=
+  [ .line (.note (Str.ofString "# a table")),
+    .line (.cmd sampleCmd),
+    .chain
+      ⟨⟨Str.ofString "  ", Str.ofString "# only there"⟩, ⟨Str.ofString "IF", [32], [32], [32, 32, 32]⟩,
+        .atom ⟨Str.ofString "FLAVOR", .flavor, false, Str.ofString "Linux", none, [32], [32], [32]⟩, [32],
+        [.cmd cmdSetA, .note []]⟩
+      [(⟨[32], Str.ofString "Else", [32]⟩, ⟨⟨Str.ofString "  ", []⟩, ⟨Str.ofString "if", [32], [], []⟩, condBuild, [], []⟩)]
+      (some ⟨⟨Str.ofString "  ", Str.ofString "# otherwise"⟩, ⟨[], Str.ofString "else", []⟩, [32],
+        [.cmd cmdUnset, .cmd cmdSetB]⟩)
+      ⟨Str.ofString "  ", []⟩ [] ]
+
+example : gText sampleGTable true = Str.ofString
+    "# a table\n\tENVAPPEND (PATH, \"${PRODUCT_DIR}/my bin\", ;) ;  # c\n  IF ( FLAVOR == Linux ) {   # only there\n\tenvSet(A, 1)\n\n  } Else if (TYPE == build){\n  }else{ # otherwise\npathRemove(PATH)\n      SETENV (B, \"x y\");  # comment\n  }\n" := by
+  decide +kernel
+example : sampleGTable.all (GItem.ok none) = true := by decide +kernel
+example : gDenote none envLinux sampleGTable = [⟨Str.ofString "envPrepend",
+    [Str.ofString "PATH", Str.ofString "${PRODUCT_DIR}/my bin", [59]], .append true⟩, actA] ∧
+    gDenote none ⟨Str.ofString "Darwin", []⟩ sampleGTable = [⟨Str.ofString "envPrepend",
+    [Str.ofString "PATH", Str.ofString "${PRODUCT_DIR}/my bin", [59]], .append true⟩, actB] := by decide +kernel
+
+/-- **C11_legacy_denotes (legacy `Flavor=` groups mean what the corresponding `if` blocks mean).**  For every legacy
+table of the grammar — command / blank / comment lines, then groups, each one or more `Flavor = f` lines (keyword in
+any letter case, blanks, indentation, comments; `f` a plain word) followed by a command line and further command /
+blank / comment lines up to the next group — for every product, flavor and list of setup types:
+`Table(text, product).actions(flavor, types)` is the actions of the lines before the first group followed, for each
+group in order, by the actions of its lines when the flavor is one of the group's flavors (and nothing otherwise).
+Composition of `_rewrite` (`C11_legacy_groups`), the two patterns of `_read`, the block state machine,
+`Table.actions` and the condition evaluator on `FLAVOR == f1 || FLAVOR == f2 …`. -/
+theorem C11_legacy_denotes (env : Env) (hfl : flavorOK env.flavor = true) (pdir : Option Str) (pre : List GLine)
+    (gs : List LGroup) (hpre : pre.all (GLine.ok pdir) = true) (hgs : gs.all (LGroup.ok pdir) = true) (nl : Bool) :
+    tableActions repaired pdir env (lText pre gs nl) = .ok (lDenote pdir env pre gs) :=
+  legacy_denotes env hfl pdir pre gs hpre hgs nl
+
+/-! ### non-vacuity -/
+
+def sampleLGroups : List LGroup :=
+  [ ⟨⟨⟨[], []⟩, Str.ofString "Flavor", [32], [32], Str.ofString "Linux", []⟩,
+     [⟨⟨[32], Str.ofString "# too"⟩, Str.ofString "FLAVOR", [], [], Str.ofString "Linux64", [32]⟩],
+     cmdSetA, [.note (Str.ofString "# c"), .cmd cmdSetB]⟩,
+    ⟨⟨⟨[], []⟩, Str.ofString "flavor", [32], [], Str.ofString "Darwin", []⟩, [], cmdUnset, []⟩ ]
+
+example : lText [.cmd sampleCmd] sampleLGroups true = Str.ofString
+    "\tENVAPPEND (PATH, \"${PRODUCT_DIR}/my bin\", ;) ;  # c\nFlavor = Linux\n FLAVOR=Linux64 # too\n\tenvSet(A, 1)\n# c\n      SETENV (B, \"x y\");  # comment\nflavor =Darwin\npathRemove(PATH)\n" := by
+  decide +kernel
+example : [GLine.cmd sampleCmd].all (GLine.ok none) = true ∧ sampleLGroups.all (LGroup.ok none) = true := by decide +kernel
+example : lDenote none ⟨Str.ofString "Linux64", []⟩ [.cmd sampleCmd] sampleLGroups = [⟨Str.ofString "envPrepend",
+      [Str.ofString "PATH", Str.ofString "${PRODUCT_DIR}/my bin", [59]], .append true⟩, actA, actB] ∧
+    lDenote none ⟨Str.ofString "SunOS", []⟩ [.cmd sampleCmd] sampleLGroups = [⟨Str.ofString "envPrepend",
+      [Str.ofString "PATH", Str.ofString "${PRODUCT_DIR}/my bin", [59]], .append true⟩] := by decide +kernel
+
+/-- **C11_legacy_denotes_old (`Group:` … `End:`).**  The same for old-style tables — an optional header
+`File = Table` / `Product = …`, command / blank / comment lines, then groups `Group:` / one or more `Flavor = f` /
+optionally `Qualifiers = "…"` / `Common:` / optionally `Action = setup` / command, blank and comment lines / `End:` /
+further such lines — whose flavors are plain words other than `ANY`: `Table.actions` gives the lines outside the
+groups always and a group's lines exactly when the flavor is one of the group's flavors, in the order written. -/
+theorem C11_legacy_denotes_old (env : Env) (hfl : flavorOK env.flavor = true) (pdir : Option Str) (h : Option OHeader)
+    (pre : List GLine) (gs : List OLGroup) (hh : ∀ x, h = some x → x.ok = true) (hpre : pre.all (GLine.ok pdir) = true)
+    (hgs : gs.all (OLGroup.ok pdir) = true) (nl : Bool) :
+    tableActions repaired pdir env (olText h pre gs nl) = .ok (olDenote pdir env pre gs) :=
+  old_legacy_denotes env hfl pdir h pre gs hh hpre hgs nl
+
+def sampleOLGroups : List OLGroup :=
+  [ { group := ⟨⟨[], []⟩, Str.ofString "Group:", []⟩,
+      f := ⟨⟨[32, 32], []⟩, Str.ofString "Flavor", [32], [32], Str.ofString "Linux", []⟩,
+      more := [⟨⟨[32, 32], []⟩, Str.ofString "FLAVOR", [], [], Str.ofString "Linux64", []⟩],
+      qual := some ⟨⟨[32, 32], []⟩, Str.ofString "Qualifiers", [32], [32], Str.ofString "\"\"", []⟩,
+      common := ⟨⟨[], []⟩, Str.ofString "COMMON:", [32]⟩,
+      action := some ⟨⟨[32, 32], []⟩, Str.ofString "Action", [32], [32], Str.ofString "Setup", []⟩,
+      body := [.cmd cmdSetA, .note (Str.ofString "  # two")],
+      end_ := ⟨⟨[], []⟩, Str.ofString "End:", []⟩,
+      after := [.cmd cmdSetB] } ]
+
+example : olText (some oldHeader) [.cmd sampleCmd] sampleOLGroups true = Str.ofString
+    "FILE=table\nProduct = foo\n\tENVAPPEND (PATH, \"${PRODUCT_DIR}/my bin\", ;) ;  # c\nGroup:\n  Flavor = Linux\n  FLAVOR=Linux64\n  Qualifiers = \"\"\nCOMMON: \n  Action = Setup\n\tenvSet(A, 1)\n  # two\nEnd:\n      SETENV (B, \"x y\");  # comment\n" := by
+  decide +kernel
+example : sampleOLGroups.all (OLGroup.ok none) = true := by decide +kernel
+example : olDenote none ⟨Str.ofString "Linux64", []⟩ [] sampleOLGroups = [actA, actB] ∧
+    olDenote none ⟨Str.ofString "Darwin", []⟩ [] sampleOLGroups = [actB] := by decide +kernel
+
+/-! ## `declareOptions` (what `eups declare` reads from the table) -/
+
+/-- **C11_declare_options_selection.**  `Table.getDeclareOptions(flavor, types)` — a second copy of the branch
+selection loop — reads its options off exactly the actions `Table.actions(flavor, types)` returns, for every table
+text, reader variant, product and environment (errors included). -/
+theorem C11_declare_options_selection (v : Variant) (pdir : Option Str) (env : Env) (text : Str) :
+    tableDeclOpts v pdir env text = (tableActions v pdir env text).bind fun as => .ok (blockOpts [] as) :=
+  tableDeclOpts_actions v pdir env text
+
+/-- **C11_declare_options_text.**  For every written table (`C11_blocks_text`): the options `eups declare` sees are
+those of the `declareOptions` commands among the actions the table denotes — unconditional ones and those of the
+one applicable branch of every chain, in order, a later option replacing an earlier one with the same key. -/
+theorem C11_declare_options_text (env : Env) (hfl : flavorOK env.flavor = true) (pdir : Option Str) (t : List TItemT)
+    (hok : t.all (TItemT.ok pdir) = true) (nl : Bool) :
+    tableDeclOpts repaired pdir env (tableText t nl) = .ok (blockOpts [] (denoteTable env (tableAbs t))) := by
+  rw [tableDeclOpts_actions, C11_blocks_text env hfl pdir t hok nl]; rfl
+
+/-- the same on the grammar of `C11_table_text`: the options `eups declare` sees are those of the `declareOptions`
+commands among the actions the table denotes -/
+theorem C11_table_declare_options (env : Env) (hfl : flavorOK env.flavor = true) (pdir : Option Str) (t : List GItem)
+    (hok : t.all (GItem.ok pdir) = true) (nl : Bool) :
+    tableDeclOpts repaired pdir env (gText t nl) = .ok (blockOpts [] (gDenote pdir env t)) := by
+  rw [tableDeclOpts_actions, C11_table_text env hfl pdir t hok nl]; rfl
+
+/-- **C11_declare_option_words.**  `=` separates the words of `declareOptions` like blanks and commas do: for
+arguments without white space inside (every unquoted argument) the words are the non-empty pieces between `=`
+signs — so `k=v`, `k = v`, `k =v`, `k= v` all give the words `k`, `v`; and one option written `k = v` inside a quoted
+argument, with any white space around the `=`, gives `k`, `v` too. -/
+theorem C11_declare_option_words :
+    (∀ args : List Str, (∀ a ∈ args, noSpace a = true) →
+      optWords args = (args.flatMap (splitOn 61 [])).filter (fun w => !w.isEmpty)) ∧
+    (∀ k s1 s2 v : Str, 61 ∉ k → 61 ∉ v → blank s1 = true → blank s2 = true →
+      (k.getLast?.map Str.isSpace).getD false = false → (v.head?.map Str.isSpace).getD false = false →
+      splitEq (k ++ s1 ++ 61 :: (s2 ++ v)) = [k, v]) := by
+  refine ⟨?_, fun k s1 s2 v hk hv h1 h2 hkl hvh => splitEq_written hk hv h1 h2 hkl hvh⟩
+  intro args h
+  simp only [optWords]
+  congr 1
+  induction args with
+  | nil => rfl
+  | cons a rest ih =>
+    simp only [List.flatMap_cons, splitEq_noSpace (h a (by simp)), ih (fun x hx => h x (by simp [hx]))]
+
+/-- **C11_declare_options_written.**  The docstring's example in general: a `declareOptions` command whose arguments
+are options `k = v`, each written in any of the four unquoted styles (`k=v`, `k = v`, `k =v`, `k= v`; keys and values
+non-empty, without `=` and white space), declares exactly the pairs written, in order — `getDeclareOptions` folds
+them into its dictionary, a later pair replacing an earlier one with the same key. -/
+theorem C11_declare_options_written (os : List (Str × Str × OptStyle))
+    (h : ∀ o ∈ os, optWord o.1 = true ∧ optWord o.2.1 = true) (d : Dict) :
+    blockOpts d [⟨Cmd.declareOptions.name, os.flatMap fun o => optArgs o.1 o.2.1 o.2.2, .none⟩]
+      = (os.map fun o => (o.1, o.2.1)).foldl (fun o p => dictSet o p.1 p.2) d := by
+  simp [blockOpts, pairUp_written os h]
+
+example : optArgs (Str.ofString "flavor") (Str.ofString "NULL") .joined ++ optArgs (Str.ofString "name") (Str.ofString "foo") .spaced
+    = [Str.ofString "flavor=NULL", Str.ofString "name", [61], Str.ofString "foo"] ∧
+    optWord (Str.ofString "flavor") = true ∧ optWord (Str.ofString "1.2") = true := by decide
+
+/-! ### non-vacuity -/
+
+/-- `declareOptions(flavor=NULL, name = foo, "x_y  =1.2", flavor= Linux, version)` as tokenised -/
+def optsAction : Action :=
+  ⟨Cmd.declareOptions.name, [Str.ofString "flavor=NULL", Str.ofString "name", [61], Str.ofString "foo", Str.ofString "x_y  =1.2",
+    Str.ofString "flavor=", Str.ofString "Linux", Str.ofString "version"], .none⟩
+
+example : parseArgs repaired (Str.ofString "flavor=NULL, name = foo, \"x_y  =1.2\", flavor= Linux, version") = optsAction.args := by
+  decide +kernel
+example : blockOpts [] [actA, optsAction] =
+    [(Str.ofString "flavor", Str.ofString "Linux"), (Str.ofString "name", Str.ofString "foo"),
+     (Str.ofString "x_y", Str.ofString "1.2")] := by decide +kernel
+
+/-! ### `getDeclareOptions` as pinned (before the repair of D111) -/
+
+/-- an `if` / `else if` chain of eight branches, each declaring a flavor -/
+def longChainText : Str := Str.ofString "if (FLAVOR == F0) {\n  declareOptions(flavor=G0)\n} else if (FLAVOR == F1) {\n  declareOptions(flavor=G1)\n} else if (FLAVOR == F2) {\n  declareOptions(flavor=G2)\n} else if (FLAVOR == F3) {\n  declareOptions(flavor=G3)\n} else if (FLAVOR == F4) {\n  declareOptions(flavor=G4)\n} else if (FLAVOR == F5) {\n  declareOptions(flavor=G5)\n} else if (FLAVOR == F6) {\n  declareOptions(flavor=G6)\n} else if (FLAVOR == F7) {\n  declareOptions(flavor=G7)\n}\n"
+
+/-- what the reader makes of it: one entry of `_actions` with 17 elements -/
+def longChain : Chain :=
+  (List.range 8).flatMap (fun i => [Item.cond (Str.ofString "FLAVOR == F" ++ [48 + i]),
+    Item.blk [⟨Cmd.declareOptions.name, [Str.ofString "flavor=G" ++ [48 + i]], .none⟩]]) ++ [Item.blk []]
+
+/-- **D111 as pinned.**  On a chain of more than seven branches the loop of `getDeclareOptions` stops in the debugger
+(`pdb.set_trace()`, left in the library) before it evaluates anything — for every flavor and setup type;
+`Table.actions` on the same table is fine, and so is the repaired loop. -/
+theorem C11_declare_options_debugger_witness :
+    parse repaired none longChainText = .ok [longChain] ∧
+    (∀ env d, declOptsGoPinned repaired env d [longChain] = .ok none) ∧
+    actions repaired ⟨Str.ofString "F7", []⟩ [longChain]
+      = .ok [⟨Cmd.declareOptions.name, [Str.ofString "flavor=G7"], .none⟩] ∧
+    declOptsGo repaired ⟨Str.ofString "F7", []⟩ [] [longChain] = .ok [(Str.ofString "flavor", Str.ofString "G7")] ∧
+    declOptsGo repaired ⟨Str.ofString "SunOS", []⟩ [] [longChain] = .ok [] := by
+  refine ⟨by decide +kernel, fun env d => ?_, by decide +kernel, by decide +kernel, by decide +kernel⟩
+  have : longChain.length > 15 := by decide
+  simp [declOptsGoPinned, this]
+
+/-! ## the setup type: from the command line to `Table.actions` -/
+
+open EupsModel.SetupType in
+/-- **C11_setup_type_option.**  `setup --type "<words>"` (the option string reaches `Eups(setupType=…)` as it is):
+words separated by non-empty runs of blanks and commas, every word a valid setup type, name exactly those words, in
+order; `--exact` adds `exact` when it is not among them; `Eups.exact_version` says whether `exact` is among the
+types.  These are the types `Eups.setup` hands to `Table.actions(flavor, setupType)`, i.e. the `env.types` of
+`C11_cond` / `C11_table_text`: `TYPE == w` holds iff `w` is one of the words (or `exact` under `--exact`).
+A word that is not a valid setup type is refused (`EupsException`). -/
+theorem C11_setup_type_option (valid : List Str) (first : Str) (rest : List (Str × Str)) (exactOpt : Bool)
+    (hf : SetupType.wordOK first = true) (hr : ∀ p ∈ rest, SetupType.sepOK p.1 = true ∧ SetupType.wordOK p.2 = true) :
+    normTypes valid (setupArg (first ++ rest.flatMap fun p => p.1 ++ p.2)) exactOpt =
+      (let words := first :: rest.map (·.2)
+       let ts := if exactOpt && !words.contains sExact then words ++ [sExact] else words
+       if words.all (fun t => valid.contains t) then some (ts, ts.contains sExact) else none) := by
+  simp only [normTypes, setupArg, argTypes_words first rest hf hr]
+
+open EupsModel.SetupType in
+/-- **C11_setup_type_cmd_option.**  `eups <cmd> -T "<words>"` (`cmd.py` passes `str.split()` of the option): words
+separated by runs of white space, with or without white space before the first and after the last, name exactly those
+words (a comma is part of a word on this path). -/
+theorem C11_setup_type_cmd_option (valid : List Str) (pad1 first : Str) (rest : List (Str × Str)) (pad2 : Str)
+    (exactOpt : Bool) (h1 : pad1.all Str.isSpace = true) (hf : wsWord first = true)
+    (hr : ∀ p ∈ rest, wsSep p.1 = true ∧ wsWord p.2 = true) (h2 : pad2.all Str.isSpace = true) :
+    normTypes valid (cmdArg (pad1 ++ first ++ (rest.flatMap fun p => p.1 ++ p.2) ++ pad2)) exactOpt =
+      (let words := first :: rest.map (·.2)
+       let ts := if exactOpt && !words.contains sExact then words ++ [sExact] else words
+       if words.all (fun t => valid.contains t) then some (ts, ts.contains sExact) else none) := by
+  simp only [cmdArg_words pad1 first rest pad2 h1 hf hr h2, normTypes, argTypes]
+
+open EupsModel.SetupType in
+/-- **C11_dependencies_types.**  `Table.dependencies` reads the table for the same types when it follows exact
+versions, and for the types other than `exact` (order kept) when it does not. -/
+theorem C11_dependencies_types (ts : List Str) :
+    depTypes true ts = ts ∧ ∀ w, (depTypes false ts).contains w = (ts.contains w && w != sExact) :=
+  ⟨rfl, fun w => by simp only [depTypes, Bool.false_eq_true, if_false]; exact contains_filter_ne ts sExact w⟩
+
+open EupsModel.SetupType in
+example : normTypes [sExact, Str.ofString "build"] (setupArg (Str.ofString "build, exact")) false
+    = some ([Str.ofString "build", sExact], true) ∧
+    normTypes [sExact, Str.ofString "build"] (setupArg (Str.ofString "build")) true
+    = some ([Str.ofString "build", sExact], true) ∧
+    normTypes [sExact, Str.ofString "build"] (cmdArg (Str.ofString " build  exact ")) false
+    = some ([Str.ofString "build", sExact], true) ∧
+    normTypes [sExact, Str.ofString "build"] (setupArg (Str.ofString "build bogus")) false = none ∧
+    -- not claimed either way: a separator at an end of the option names the empty type, which is refused
+    normTypes [sExact, Str.ofString "build"] (setupArg (Str.ofString "build ")) false = none := by decide +kernel
+open EupsModel.SetupType in
+example : SetupType.wordOK (Str.ofString "build") = true ∧ SetupType.sepOK (Str.ofString ", ") = true := by decide
+
+/-! ## the default product -/
+
+/-- **C11_default_product.**  With a default product configured (`hooks.config.Eups.defaultProduct`, usually
+`toolchain`; `addDefaultProduct` not `False`) `Table(text, product).actions(flavor, types)` is what it is without one
+followed by one implicit, silent `setupOptional` of the default product (its name, the version and `--tag tag` when
+configured) — unconditional, after everything the text denotes, for every text, flavor and list of setup types, errors
+included; without one (`none`) nothing is added.  With `C11_table_text`: the actions written, then the implicit one. -/
+theorem C11_default_product (pdir : Option Str) (env : Env) (text : Str) :
+    (∀ d, tableActionsD repaired pdir (some d) env text
+      = (tableActions repaired pdir env text).bind fun as => .ok (as ++ [implicitAction d])) ∧
+    (∀ v, tableActionsD v pdir none env text = tableActions v pdir env text) :=
+  ⟨fun d => tableActionsD_some pdir d env text, fun v => tableActionsD_none v pdir env text⟩
+
+example : implicitAction ⟨Str.ofString "toolchain", none, none⟩ = ⟨Str.ofString "setupRequired", [Str.ofString "toolchain"], .implicit⟩ ∧
+    implicitAction ⟨Str.ofString "base", some (Str.ofString "1.0"), some (Str.ofString "stable")⟩
+      = ⟨Str.ofString "setupRequired", [Str.ofString "base", Str.ofString "1.0", Str.ofString "--tag", Str.ofString "stable"], .implicit⟩ := by
+  decide
 
 end EupsModel.C11
